@@ -39,14 +39,44 @@ def iface_session(seed, n):
     return {'init': dict(sessbase.NOFILTER), 'events': ev, 'mode': 'iface'}
 
 
+def appid_session(seed):
+    """connections that name themselves, then `connection <application id>` in several spellings, and the listing"""
+    r = random.Random(seed)
+    ids = r.sample(['org.gnome.gedit', 'Firefox', 'com.example.App', 'ALLCAPS', 'kitty', 'a.b.C', 'x'], 3)
+    ev, t = [], 1000
+    for k, app in enumerate(ids):
+        tag = str(k + 1)
+        side = r.random() < 0.3
+        t += 500
+        ev.append({'in': {'e': 'msg', 'tag': tag, 't': t, 'm': {'ttype': 'wl_display', 'tid': 1, 'name': 'get_registry', 'sent': not side,
+                                                             'args': [{'k': 'new', 'type': 'wl_registry', 'id': 2}]}}})
+        t += 500
+        ev.append({'in': {'e': 'msg', 'tag': tag, 't': t, 'm': {'ttype': 'wl_registry', 'tid': 2, 'name': 'bind', 'sent': not side,
+                                                             'args': [{'k': 'int', 'v': 1}, {'k': 'str', 's': 'xdg_toplevel'}, {'k': 'int', 'v': 1}, {'k': 'new', 'type': '', 'id': 3}]}}})
+        for name, txt in r.sample([('set_title', 'First title'), ('set_app_id', app), ('set_title', 'Second title'), ('set_app_id', app)], r.randint(1, 4)):
+            t += 500
+            ev.append({'in': {'e': 'msg', 'tag': tag, 't': t, 'm': {'ttype': 'xdg_toplevel', 'tid': 3, 'name': name, 'sent': not side,
+                                                                 'args': [{'k': 'str', 's': txt}]}}})
+    for _ in range(6):
+        a = r.choice(ids + ['nobody'])
+        ev.append({'in': {'e': 'cmd', 'c': 'conn', 'arg': r.choice([a, a.upper(), a.lower(), a.swapcase(), 'B', 'c', ''])}})
+        if r.random() < 0.4:
+            ev.append({'in': {'e': 'cmd', 'c': 'conn', 'arg': ''}})
+    ev.append({'in': {'e': 'eof'}})
+    ev.append({'in': {'e': 'cmd', 'c': 'conn', 'arg': ''}})
+    return {'init': dict(sessbase.NOFILTER), 'events': ev}
+
+
 def sessions(ctx):
     def it(rep):
         yield from sessbase.model_sessions(ctx, rep, 'MC_Session_conns.cfg', 'all interleavings of two connections using the same ids',
                                            ctx.pick(1000, 15000), override={'MaxLen': ctx.pick(5, 6)},
                                            renders=[{'dialect': 'new'}, {'dialect': 'old'}])
         for k in range(ctx.pick(150, 1500)):
-            g = gen.SessionGen(ctx.seed * 15485863 + k, nconn=(2, 5), nmsg=(20, 70), junk=0.05, core=True)
+            g = gen.SessionGen(ctx.seed * 15485863 + k, nconn=(2, 5), nmsg=(20, 70), junk=0.05, core=True, cmds=0.12 if k % 2 else 0.0, titles=0.12)
             yield g.session(), {'dialect': 'new'}, 'random-multi'
+        for k in range(ctx.pick(60, 400)):
+            yield appid_session(ctx.seed * 2750159 + k), {'dialect': 'new'}, 'titles-and-appids'
         for k in range(ctx.pick(150, 1500)):
             yield iface_session(ctx.seed * 32452843 + k, ctx.rnd.randint(8, 40)), {'dialect': 'new'}, 'interface'
     return it
@@ -59,7 +89,7 @@ def run(ctx):
         'P3: random logs with 2-5 tagged connections, and random open/message/close sequences driven directly at the '
         'connection-id interface (re-opened ids, closes of unknown ids). Notices, X: prefixes, ConnectionList projections are '
         'compared with Session!Step by TLC.',
-        [('MC_Session_conns.cfg', 'C04 interleavings')], sessions(ctx))
+        [('MC_Session_conns.cfg', 'C04 interleavings', {'MaxLen': 5})], sessions(ctx))
 
 
 def replay(ctx, data):
